@@ -25,7 +25,7 @@ PROPS = {
         'streams': ['l2-tags', 'l5-props'],
         'trusted_base': ['translator reading of the 60 Parse/Format functions into step lists (translator/tags.go), tied by stream l2-tags (300k cases, zero disagreements)',
                          'hand model of converters.go (Model/Converters.v)'],
-        'assumptions': COMMON_ASSUME + ['the file-level theorem covers messages whose present tags are among 59 (56 regular tags, {1500}, {3600}, {8200}); for the 8 tags whose minimum-length guard is not static the canonical-value condition includes that the text of the value meets the guard; {1120} is covered by correspondence only',
+        'assumptions': COMMON_ASSUME + ['the file-level theorem covers messages whose present tags are all 60 tags (56 regular tags, {1120}, {1500}, {3600}, {8200}); for the 8 tags whose minimum-length guard is not static the canonical-value condition includes that the text of the value meets the guard',
                                         'the file-level theorem assumes the written text is shorter than the 64 KiB scanner limit (all tags together stay below 27 KiB)'],
     },
     'C04': {
